@@ -9,8 +9,13 @@ from c07 import enc_ivals
 from framework import PropertyCheck
 
 # commands used by the scripts: (name, class)   class: 'hi' keep-alive, 'mid' ordinary, 'lo' packet send
-CMDS = [("nop", "hi"), ("readCounters", "hi"), ("getValue", "hi"), ("getEui64", "mid"), ("getNodeId", "mid"),
-        ("networkState", "mid"), ("sendUnicast", "lo"), ("setSourceRoute", "lo"), ("sendBroadcast", "lo")]
+CMDS = [("nop", "hi"), ("readCounters", "hi"), ("readAndClearCounters", "hi"), ("getValue", "hi"), ("getEui64", "mid"),
+        ("getNodeId", "mid"), ("networkState", "mid"), ("sendUnicast", "lo"), ("sendMulticast", "lo"), ("setSourceRoute", "lo"),
+        ("setExtendedTimeout", "lo"), ("sendBroadcast", "lo")]
+# the property's priority classes, stated independently of the library: keep-alive and counter reads first (999), packet
+# sends and their set-up commands last (-1), everything else 0
+SPEC_PRIO = {"nop": 999, "readCounters": 999, "readAndClearCounters": 999, "getValue": 999,
+             "sendUnicast": -1, "sendMulticast": -1, "sendBroadcast": -1, "setSourceRoute": -1, "setExtendedTimeout": -1}
 KIND = {"timeout": 0, "sendfail": 1, "invalid": 2, "cancelled": 3}
 
 
@@ -95,7 +100,7 @@ class Driver:
         self.tasks[i] = t
         self.task_id[t] = i
         self.loop.settle()
-        self._end(("call", i, name, self.proto._get_command_priority(name), cid))
+        self._end(("call", i, name, SPEC_PRIO.get(name, 0), cid))
 
     def send_done(self, i, ok=True):
         fut = self.sends.pop(i)
